@@ -486,6 +486,9 @@ def micro_programs():
             ("creator-or-lit-or-lit", a + cr + ["=="] + a + l0 + ["==", "||"] + a + l1 + ["==", "||"]),
             ("lit-or-lit", a + l0 + ["=="] + a + l1 + ["==", "||"]),
             ("neither-creator-nor-lit", a + cr + ["!="] + a + l0 + ["!=", "&&", "!"]),
+            # a set merged with a strict superset / subset of itself, in both orders
+            ("sub-then-super", a + l0 + ["=="] + a + l0 + ["=="] + a + l1 + ["==", "||", "||"]),
+            ("super-then-sub", a + l0 + ["=="] + a + l1 + ["==", "||"] + a + l0 + ["==", "||"]),
         ):
             emit(f"addrmix/{fld}/{combo}", lines)
     # an operand of && / || that was pushed in an EARLIER block (unknown to the block-local reconstruction), combined with a
@@ -503,6 +506,12 @@ def micro_programs():
                         for cons, tail in (("bnz-fall", ["bnz bad", "int 1", "return", "bad:", "err"]), ("bz-jump", ["bz good", "err", "good:", "int 1", "return"]),
                                            ("not-assert", ["!", "assert", "int 1", "return"]), ("assert", ["assert", "int 1", "return"])):
                             out.append((f"unkop/{fld}/{op}/{conn}/{unk[0].replace(' ', '')}/{order}/{cons}", "\n".join(head + tail)))
+    # guard at the bottom: the LAST instruction of the source is a conditional branch back to an accepting label; not taking it
+    # falls off the end of the program (rejected)
+    for fld, pos, negd in (("RekeyTo", ["txn RekeyTo", "global ZeroAddress", "=="], ["txn RekeyTo", "global ZeroAddress", "!="]),
+                           ("Fee", ["txn Fee", "int 1000", "<="], ["txn Fee", "int 1000", ">"])):
+        out.append((f"bottom/{fld}/bnz", "\n".join(["#pragma version 6", "b check", "ok:", "int 1", "return", "check:"] + pos + ["bnz ok"])))
+        out.append((f"bottom/{fld}/bz", "\n".join(["#pragma version 6", "b check", "ok:", "int 1", "return", "check:"] + negd + ["bz ok"])))
     # a leaf block that asserts one check and RETURNS another computed condition
     chk = {"RekeyTo": ["txn RekeyTo", "global ZeroAddress", "=="], "Fee": ["txn Fee", "int 1000", "<="], "CloseRemainderTo": ["txn CloseRemainderTo", "global ZeroAddress", "=="],
            "OnCompletion": ["txn OnCompletion", "int UpdateApplication", "!="], "GroupSize": ["global GroupSize", "int 2", "=="], "unrelated": ["txn NumAppArgs", "int 1", "=="]}
